@@ -106,6 +106,16 @@ def _impl(tier, seed, search):
         from spatialmath import Quaternion
         ok, r = L.noraise('UQ*p', lambda: UnitQuaternion(qv) * p, dict(q=qv, p=p), 'UnitQuaternion * point')
         if ok: L.close('UQ*p', np.asarray(r, float).flatten(), ref, TOL, float(np.max(np.abs(p))), dict(q=qv, p=p))
+        # inverse undoes the action — with the inverse taken first, then the object used again (single- and multi-valued)
+        def uq_inv_then_act():
+            Xq = UnitQuaternion(qv); Xi = Xq.inv(); y = np.asarray(Xq * p, float).flatten()
+            Xm = UnitQuaternion([qv, inputs.unitq(g)]); Xmi = Xm.inv(); ym = np.asarray(Xm * p, float)
+            return np.asarray(Xi * y, float).flatten(), y, np.asarray(Xmi[0] * ym[:, 0], float).flatten(), np.asarray(Xmi[1] * ym[:, 1], float).flatten()
+        ok, r = L.noraise('UQ.inv', uq_inv_then_act, dict(q=qv, p=p), 'UnitQuaternion.inv() then the action of the same object')
+        if ok:
+            L.close('UQ:inv(X)*(X*p)', r[0], p, TOL, float(np.max(np.abs(p))), dict(q=qv, p=p), what='X.inv() * (X * p) differs from p when the inverse is taken before X is applied', sig='UQ:inv')
+            L.close('UQ:X*p after inv', r[1], ref, TOL, float(np.max(np.abs(p))), dict(q=qv, p=p), what='X * p changed after X.inv() was called', sig='UQ:inv')
+            L.close('UQ[M]:inv(X)*(X*p)', r[2], p, TOL, float(np.max(np.abs(p))), dict(q=qv, p=p), sig='UQ:inv'); L.close('UQ[M]:inv(X)*(X*p)', r[3], p, TOL, float(np.max(np.abs(p))), dict(q=qv, p=p), sig='UQ:inv')
         ok, r = L.noraise('qvmul', lambda: b.qvmul(qv, p), dict(q=qv, p=p), 'qvmul')
         if ok: L.close('qvmul', r, ref, TOL, float(np.max(np.abs(p))), dict(q=qv, p=p))
         def udq():
@@ -118,10 +128,12 @@ def _impl(tier, seed, search):
         # the same rotation reached by conversion from the matrix (r2q) must act the same way
         #  (only for rotation angles 1e-4 .. pi-1e-4: the accuracy of the matrix -> quaternion conversion itself is C04's subject)
         conv_ok = 1e-4 < abs(th) % (2 * math.pi) < math.pi - 1e-4 or math.pi + 1e-4 < abs(th) % (2 * math.pi) < 2 * math.pi - 1e-4
-        ok, r = (L.noraise('UQ(R)*p', lambda: UnitQuaternion(SO3(R, check=False)) * p, dict(R=R, p=p), 'UnitQuaternion(SO3) * point') if conv_ok else (False, None))
-        if ok: L.close('UQ(R)*p', np.asarray(r, float).flatten(), ref, TOL, float(np.max(np.abs(p))), dict(R=R, p=p), what='UnitQuaternion converted from a rotation matrix does not rotate like the matrix')
-        ok, r = (L.noraise('UDQ(T)*p', lambda: UnitDualQuaternion(SE3(Tm, check=False)) * p, dict(T=Tm, p=p), 'UnitDualQuaternion(SE3) * point') if conv_ok else (False, None))
-        if ok and r is not None: L.close('UDQ(T)*p', np.asarray(r, float).flatten(), R @ p + t, TOL, scale, dict(T=Tm, p=p), what='UnitDualQuaternion converted from an SE3 does not act like the SE3')
+        #  inside those bands (and at exact half turns about a general axis) a result is still required, compared at C04's 1e-6
+        ctol = TOL if conv_ok else 1e-6
+        ok, r = L.noraise('UQ(R)*p', lambda: UnitQuaternion(SO3(R, check=False)) * p, dict(R=R, p=p, theta=th), 'UnitQuaternion(SO3) * point')
+        if ok: L.close('UQ(R)*p', np.asarray(r, float).flatten(), ref, ctol, float(np.max(np.abs(p))), dict(R=R, p=p), what='UnitQuaternion converted from a rotation matrix does not rotate like the matrix')
+        ok, r = L.noraise('UDQ(T)*p', lambda: UnitDualQuaternion(SE3(Tm, check=False)) * p, dict(T=Tm, p=p, theta=th), 'UnitDualQuaternion(SE3) * point')
+        if ok and r is not None: L.close('UDQ(T)*p', np.asarray(r, float).flatten(), R @ p + t, ctol, scale, dict(T=Tm, p=p), what='UnitDualQuaternion converted from an SE3 does not act like the SE3')
         # multi-valued unit quaternion times one vector: column k is value k applied to the vector (any number of values)
         Mq = int(g.integers(2, 6)); qs_ = [inputs.unitq(g) for _ in range(Mq)]
         ok, r = L.noraise('UQ[M]*p', lambda: UnitQuaternion(qs_) * p, dict(M=Mq, p=p), 'multi-valued UnitQuaternion * point')
